@@ -1,6 +1,7 @@
 package main
 
 import (
+	"fmt"
 	"bytes"
 	"crypto/ecdsa"
 	"crypto/ed25519"
@@ -131,7 +132,17 @@ func genC06(r *Rng, tier string) []Case {
 		if r.Chance(1, 8) {
 			e.Response.Header.Add("Digest", []string{"x", ""}[r.Intn(2)])
 		}
-		cs = append(cs, Case{"bsig_add_integrity", []Sx{inSx(e), Zi(int64([]int{1, 16, 17, 4096}[r.Intn(4)]))}})
+		cs = append(cs, Case{"bsig_add_integrity", []Sx{inSx(e), Zi(int64([]int{1, 16, 17, 4096, 16384, 16385, 0, -1, 1 << 20}[r.Intn(9)]))}})
+	}
+	// CanSignForURL: host forms (port, letter case, sub-domain, trailing dot, user info)
+	for _, ki := range []int{0, 1, 3} {
+		leaf := sigKeys[ki]
+		chainSx := L(augSxOf(&certurl.AugmentedCertificate{Cert: leaf.cert, OCSPResponse: []byte("ocsp")}), augSxOf(&certurl.AugmentedCertificate{Cert: sigKeys[2].cert}))
+		for _, h := range []string{"example.com", "a.test", "www.example.org", "example.org", "deep.www.example.org", "uncovered.invalid", "EXAMPLE.com", "xexample.com", "example.com."} {
+			for _, f := range []string{"https://%s/", "https://%s:8443/p", "https://%s:443/", "https://u@%s/q?x=1", "https://u:p@%s:1/", "http://%s/"} {
+				cs = append(cs, Case{"bsig_can_sign", []Sx{chainSx, B([]byte(fmt.Sprintf(f, h)))}})
+			}
+		}
 	}
 	// signer histories
 	hosts := []string{"example.com", "a.test", "www.example.org", "uncovered.invalid"}
@@ -508,7 +519,7 @@ func genC07(r *Rng, tier string) []Case {
 				sig = append(append([]byte{}, sig...), pad...)
 				stab = L(L(B(dtbs), B(sig)))
 			}
-			vtab := L(L(B(recorded), B(dtbs), B(sig), Bool(ed25519.Verify(ed25519.PublicKey(recorded), dtbs, sig))))
+			vtab := L(L(B(recorded), B(dtbs), B(sig), Bool(len(recorded) == ed25519.PublicKeySize && ed25519.Verify(ed25519.PublicKey(recorded), dtbs, sig))))
 			cs = append(cs, Case{"ib_sign_and_add", []Sx{B(hash), stackInSx(stack), B(recorded), attrsSx(attrs), stab, vtab, seedSx, B(pad)}})
 			if pad != nil {
 				break
@@ -518,6 +529,67 @@ func genC07(r *Rng, tier string) []Case {
 			}
 			stack = append([]ibSig{{attrs, sig}}, stack...)
 		}
+	}
+	// several attempts on one signer: failing calls interleaved with good ones
+	na := 25
+	if tier == "thorough" {
+		na = 600
+	}
+	for i := 0; i < na; i++ {
+		hash := r.Bytes(64)
+		stack := []ibSig{}
+		stack0 := stackInSx(stack)
+		atts := []Sx{}
+		for s := 2 + r.Intn(4); s > 0; s-- {
+			seed := r.Bytes(32)
+			priv := ed25519.NewKeyFromSeed(seed)
+			recorded := []byte(priv.Public().(ed25519.PublicKey))
+			// 0,1 good; 2 key mismatch; 3 refusing strategy; 4 padded signature; 5 attribute name that is not
+			// UTF-8; 6 attributes naming another key; 7 attributes without the key; 8 a 31/33-byte key
+			kind := r.Intn(9)
+			if kind == 2 {
+				recorded = []byte(ed25519.NewKeyFromSeed(r.Bytes(32)).Public().(ed25519.PublicKey))
+			}
+			if kind == 8 {
+				recorded = append(append([]byte{}, recorded...), 7)[:[]int{31, 33, 0}[r.Intn(3)]]
+			}
+			attrs := randAttrs(recorded)
+			switch kind {
+			case 5:
+				attrs = append(attrs, [2][]byte{[]byte([]string{"\xff", "a\xc3", "\xed\xa0\x80"}[r.Intn(3)]), {1}})
+			case 6, 7:
+				na := [][2][]byte{}
+				for _, kv := range attrs {
+					if string(kv[0]) == "ed25519PublicKey" {
+						if kind == 6 {
+							na = append(na, [2][]byte{kv[0], []byte(ed25519.NewKeyFromSeed(r.Bytes(32)).Public().(ed25519.PublicKey))})
+						}
+						continue
+					}
+					na = append(na, kv)
+				}
+				attrs = na
+			}
+			dtbs := ibDtbs(hash, ibBlockCbor(stack), attrs)
+			sig := ed25519.Sign(priv, dtbs)
+			var seedSx Sx = B(seed)
+			var pad []byte
+			stab := L(L(B(dtbs), B(sig)))
+			if kind == 3 {
+				seedSx, stab = L(), L()
+			}
+			if kind == 4 {
+				pad = r.Bytes(1 + r.Intn(8))
+				sig = append(append([]byte{}, sig...), pad...)
+				stab = L(L(B(dtbs), B(sig)))
+			}
+			vtab := L(L(B(recorded), B(dtbs), B(sig), Bool(len(recorded) == ed25519.PublicKeySize && ed25519.Verify(ed25519.PublicKey(recorded), dtbs, sig))))
+			atts = append(atts, L(B(recorded), attrsSx(attrs), stab, vtab, seedSx, B(pad)))
+			if kind < 2 {
+				stack = append([]ibSig{{attrs, sig}}, stack...)
+			}
+		}
+		cs = append(cs, Case{"ib_sign_attempts", []Sx{B(hash), stack0, L(atts...)}})
 	}
 	// whole files through the sign-bundle binary
 	m := 12
